@@ -22,7 +22,7 @@ def asset_names(assets, out=None):
         out.append(a['name'])
         if a['kind'] == 'ScaledAsset':
             asset_names([a['base']], out)
-        if a['kind'] == 'StructuredAsset':
+        if a['kind'] in ('StructuredAsset', 'LinkedAsset'):
             asset_names(a['assets'], out)
     return out
 
@@ -35,7 +35,7 @@ def node_names(assets, out=None):
                 out.append(n)
         if a['kind'] == 'ScaledAsset':
             node_names([a['base']], out)
-        if a['kind'] == 'StructuredAsset':
+        if a['kind'] in ('StructuredAsset', 'LinkedAsset'):
             node_names(a['assets'], out)
     return out
 
@@ -46,8 +46,14 @@ def rename_assets(assets, fa, fn):
         a['nodes'] = [fn[n] for n in a['nodes']]
         if a['kind'] == 'ScaledAsset':
             rename_assets([a['base']], fa, fn)
-        if a['kind'] == 'StructuredAsset':
+        if a['kind'] in ('StructuredAsset', 'LinkedAsset'):
             rename_assets(a['assets'], fa, fn)
+        if a['kind'] == 'LinkedAsset':
+            lk = a['link']
+            lk['a1'], lk['a2'] = fa[lk['a1']], fa[lk['a2']]
+            for k_ in ('n1', 'n2'):
+                if lk.get(k_) is not None:
+                    lk[k_] = fn[lk[k_]]
 
 
 def renamed(sp):
@@ -61,17 +67,76 @@ def renamed(sp):
     while len(pn) < len(nn):
         pn.append('%s%d' % (pn[0], len(pn)))
     fa, fn = dict(zip(an, pa)), dict(zip(nn, pn))
+    if rng.random() < 0.35:
+        # asset and node names live in separate name spaces: a node may be called like an asset attached to it
+        a0 = rng.choice(sp['assets'])
+        if fa[a0['name']] not in fn.values():
+            fn[a0['nodes'][0]] = fa[a0['name']]
+    for a in sp['assets']:
+        if a['kind'] == 'LinkedAsset' and len(a['assets']) == 2:
+            # the two linked assets (named in the link by their names) get names one of which is contained in the other
+            free = list(pa)
+            short = rng.choice([x for x in free if any(x != y and x in y for y in free)])
+            long_ = rng.choice([y for y in free if y != short and short in y])
+            n0, n1 = [b['name'] for b in a['assets']]
+            if rng.random() < 0.5:
+                n0, n1 = n1, n0
+            # swap names so that the mapping stays injective
+            inv = {v_: k_ for k_, v_ in fa.items()}
+            for tgt, nm_ in ((n0, short), (n1, long_)):
+                other = inv.get(nm_)
+                if other is not None and other != tgt:
+                    fa[other] = fa[tgt]
+                    inv[fa[tgt]] = other
+                fa[tgt] = nm_
+                inv[nm_] = tgt
+    assert len(set(fa.values())) == len(fa)
     rename_assets(v['assets'], fa, fn)
     v['id'] = sp['id'] + '+ren'
     return v, fa, fn
+
+
+def linked_specs(seed, n, tag):
+    """a market and a LinkedAsset wrapping two plants; the link names its assets by NAME (documented option): the first plant may
+    only run while the second one is on"""
+    out = []
+    for i in range(n):
+        rng = random.Random('%s/%s/%d' % (seed, tag, i))
+        T = rng.randint(4, 7)
+        g = {'start': '2022-03-01 00:00', 'freq': 'h', 'unit': 'h', 'tz': None, 'T': T}
+        import pandas as pd
+        g['end'] = (pd.Timestamp(g['start']) + pd.Timedelta(hours=T)).strftime('%Y-%m-%d %H:%M')
+        prices = {}
+        cfg = {'p_window': 0.0, 'p_wacc': 0.0, 'p_coarse': 0.0, 'p_periodic': 0.0, 'p_profile': 0.0}
+        m = gen.gen_simple_contract(rng, g, cfg, 'm', 'N0', prices, market=True)
+        prices[m['price']] = [gen.k8(rng, 4, 8) for _ in range(T)]
+        inner = []
+        for nm_ in ('u', 'w'):
+            p = gen.gen_plant(rng, g, cfg, nm_, 'N0', None, None, prices)
+            p['min_cap'] = max(p.get('min_cap') or 0.0, 0.5)
+            p['max_cap'] = max(p['max_cap'], p['min_cap'] + 1.0)
+            p['price'] = None
+            p.pop('start', None); p.pop('end', None)      # (own windows of linked assets: see the known finding; witness in corpus/C09)
+            # u earns money at the market, w loses money: the link (u only while w is on) decides the optimum
+            p['extra_costs'] = gen.k8(rng, 0, 2) if nm_ == 'u' else gen.k8(rng, 9, 14)
+            inner.append(p)
+        rng.shuffle(inner)
+        la = {'kind': 'LinkedAsset', 'name': 'L', 'nodes': ['N0'], 'assets': inner,
+              'link': {'a1': 'u', 'v1': rng.choice(['disp', 'bool_on']), 'n1': None, 'a2': 'w', 'v2': 'bool_on', 'n2': None, 'time_back': rng.choice([0, 1, 2]), 'time_forward': rng.choice([0, 0, 1])}}
+        if la['link']['v1'] == 'disp':
+            la['link']['n1'] = 'N0'
+        assets = [m, la]
+        rng.shuffle(assets)
+        out.append({'grid': g, 'prices': prices, 'assets': assets, 'opts': {}, 'id': '%s%d' % (tag, i), 'seed': '%s/%s/%d' % (seed, tag, i)})
+    return out
 
 
 def permuted(sp):
     rng = random.Random(str(sp['seed']) + '/perm')
     v = copy.deepcopy(sp)
     for a in v['assets']:
-        if a['kind'] == 'StructuredAsset' and len(a['assets']) > 1:
-            a['assets'] = a['assets'][::-1] if rng.random() < 0.5 else rng.sample(a['assets'], len(a['assets']))     # the wrapped assets in another order, too
+        if a['kind'] in ('StructuredAsset', 'LinkedAsset') and len(a['assets']) > 1:
+            a['assets'] = a['assets'][::-1] if (rng.random() < 0.5 or len(a['assets']) == 2) else rng.sample(a['assets'], len(a['assets']))     # the wrapped assets in another order, too
     while True:
         rng.shuffle(v['assets'])
         if [a['name'] for a in v['assets']] != [a['name'] for a in sp['assets']] or len(v['assets']) < 2:
@@ -84,7 +149,7 @@ def derived_names(sp, fa, fn, base_mapping):
     """labels a structured asset derives from names: internal nodes and variable names"""
     ln, lv = {}, {}
     for a in sp['assets']:
-        if a['kind'] != 'StructuredAsset':
+        if a['kind'] not in ('StructuredAsset', 'LinkedAsset'):
             continue
         for n in node_names(a['assets']):
             ln['%s_internal_%s' % (a['name'], n)] = '%s_internal_%s' % (fa[a['name']], fn[n])
@@ -117,7 +182,8 @@ def run(ctx):
     # order books whose last order has no step in the horizon (a variable without mapping row), at any position of the asset list
     specs = ctx.specs(util.corpus(ctx.prop) + gen.gen_many(ctx.seed, n, CFG, 'c09_') + util.orderbook_tail_specs(ctx.seed, 10 if ctx.tier == 'quick' else 60, 'c09ob_', split=False)
                       # structured assets with an own life time wrapping assets with life times of their own
-                      + gen.gen_many(ctx.seed, n // 3, dict(CFG, p_struct_window=1.0, p_window_inner=0.8, kinds={'StructuredAsset': 4, 'SimpleContract': 1}), 'c09st_'))
+                      + gen.gen_many(ctx.seed, n // 3, dict(CFG, p_struct_window=1.0, p_window_inner=0.8, kinds={'StructuredAsset': 4, 'SimpleContract': 1}), 'c09st_')
+                      + linked_specs(ctx.seed, 16 if ctx.tier == 'quick' else 80, 'c09li_'))
     base = [sp for sp in specs if not sp['id'].endswith(('+ren', '+perm'))]
     rens = [renamed(sp) for sp in base]
     perms = [permuted(sp) for sp in base]
@@ -173,8 +239,11 @@ def run(ctx):
             if sorted(ob['problem']['cType']) != sorted(op['problem']['cType']) or sorted(round(v, 9) for v in ob['problem']['b']) != sorted(round(v, 9) for v in op['problem']['b']):
                 bad['rows'] = True
         if bad:
+            trig = {'what': 'order: ' + sorted(bad)[0]}
+            if any(a['kind'] == 'LinkedAsset' and any(b.get('start') or b.get('end') for b in a['assets']) for a in sp['assets']):
+                trig = {'what': 'order: linked asset wrapping an asset with its own window'}
             ctx.violation('impl-violation', {'spec': perms[i], 'base_spec': sp, 'observed': bad, 'expected': 'same optimum for every order of the assets'},
-                          trigger={'what': 'order: ' + sorted(bad)[0]})
+                          trigger=trig)
         ctx.sample({'spec': sp, 'renaming': {'assets': fa, 'nodes': fn}})
     vals = C.run_coq_exprs('C09', 'Num LP Cert Mapping Dcf Grid Assets Periodic Portfolio Corr Build', exprs, chunk=6)
     names = ['c identical', 'l identical', 'u identical', 'rows identical', 'mapping = relabelled base mapping (hypothesis of C09_dispatch_equivariant / cash flows)']
